@@ -40,7 +40,7 @@ class BoxEngine(Engine):
     max_ops = 40
     expected_probes = ['cache_warm_when_vects_changed', 'refused_raised', 'scribble_returned',
                        'scribble_passed', 'on_face_exact', 'nonnorm_cell', 'reexpress_norm',
-                       'reexpress_nonnorm', 'list_input', 'scalar_point', 'model_roundtrip', 'model_of_other_cell_read']
+                       'reexpress_nonnorm', 'list_input', 'scalar_point', 'model_roundtrip', 'model_of_other_cell_read', 'noncontiguous_points', 'cube_rotated_cell']
     rule = ('Each run drives ONE Box object (occasionally replaced by a constructor or deepcopy) through up to 40 '
             'seeded operations: the five setter families (set_vectors, set_abc, set_lengths, set_hi_los, '
             'set(**kw)), direct vects=/origin= assignment, constructors and crystal-family class methods, '
@@ -89,7 +89,12 @@ class BoxEngine(Engine):
         r = ctx.rng
         V = geom.draw_tri_cell(r, st['scale'], big_tilt=r.random() < 0.3)
         if general and r.random() < 0.7:
-            V = V @ geom.random_rotation(r).T
+            if r.random() < 0.25:
+                # an exact rotation of the cube group: zeros stay zeros, signs and axes change
+                V = V @ geom.CUBE_ROTATIONS[r.randrange(len(geom.CUBE_ROTATIONS))].T
+                ctx.probe('cube_rotated_cell')
+            else:
+                V = V @ geom.random_rotation(r).T
         size = float(np.abs(V).max())
         # Box documents that it zeroes vector components below 1e-9 of the largest one ("Zero out near zero terms"); a
         # component that a random rotation leaves in that band is a cell "closer than the rounding bound" to another cell,
@@ -211,7 +216,8 @@ class BoxEngine(Engine):
             pts.append(p)
         rel = np.array(pts).reshape(tuple(shape) + (3,))
         return {'op': 'query', 'rel': rel, 'as_list': r.random() < 0.4, 'inclusive': r.random() < 0.5,
-                'face': r.choice([None, None, 0, 1, 2, 3, 4, 5]), 'int_input': r.random() < 0.1}
+                'face': r.choice([None, None, 0, 1, 2, 3, 4, 5]), 'int_input': r.random() < 0.1,
+                'layout': r.choice(['C', 'C', 'F', 'strided', 'T'])}
 
     def _gen_fault(self, ctx, st):
         r = ctx.rng
@@ -428,7 +434,14 @@ class BoxEngine(Engine):
         def give(x):
             if op.get('int_input'):
                 x = x.astype(int) if np.all(x == np.round(x)) else x
-            return x.tolist() if op['as_list'] else x
+            if op['as_list']:
+                return x.tolist()
+            lay = op.get('layout', 'C')
+            if lay != 'C':
+                x = geom.with_layout(x, lay)
+                if x.ndim and not x.flags['C_CONTIGUOUS']:
+                    ctx.probe('noncontiguous_points')
+            return x
 
         got_cart = ctx.must('C01.B4', box.position_relative_to_cartesian, give(rel), klass='rel2cart/' + klass)
         mag = float(np.abs(rel).max()) + 1.0
@@ -452,7 +465,9 @@ class BoxEngine(Engine):
         incl = bool(op['inclusive'])
         ins = ctx.must('C01.B6', box.inside, give(cart), inclusive=incl, klass='inside/' + klass)
         outs = ctx.must('C01.B6', box.outside, give(cart), inclusive=incl, klass='outside/' + klass)
-        ins_other = ctx.must('C01.B6', box.inside, cart, inclusive=not incl, klass='inside/array')
+        # same values in the same memory layout: a point exactly on a face may fall either way with the rounding of another
+        # summation order, but outside() must be the exact complement of inside() on identical input
+        ins_other = ctx.must('C01.B6', box.inside, give(cart), inclusive=not incl, klass='inside/array')
         ins = np.asarray(ins)
         if ins.shape != rel.shape[:-1]:
             raise Violation('C01.B6', {'what': 'inside() result shape', 'got': list(ins.shape), 'want': list(rel.shape[:-1])},
